@@ -229,7 +229,7 @@ BINS = [b"", b"\x00", b"\xff\x01"]
 @harness(pre=["0 <= shape <= 3", "0 <= k0 < NLEAF", "0 <= k1 < NLEAF", "i0 in (-2**31, -1, 0, 1, 2**31 - 1)", "i1 == 7",
               "s0 == 0", "b0 == 0", "0 <= sel <= 4"], post="_", timeout=400,
          note="binary LLSD: trees {leaf, [l0, l1], {a: l0, b: [l1]}, [[l0], {k: l1}]} over 11 leaf kinds (S32 boundary values, bool; "
-              "catalogue strs incl. non-ASCII/newline/NUL, binaries, reals incl. -0.0, UUID, 3 aware datetimes, 3 plain dates, URIs, undef, Vector3), process time zone Los Angeles / UTC / Berlin: "
+              "catalogue strs incl. non-ASCII/newline/NUL, binaries, reals incl. -0.0, UUID, 3 aware datetimes, 3 plain dates, URIs, undef, Vector3), map keys ASCII / non-ASCII / empty / NUL-bearing; process time zone Los Angeles / UTC / Berlin: "
               "parse(format(v)) has the same value and the same LLSD type at every node, with and without header, through the "
               "library parser and the buffered parser used inside serialization specs", covers=COVERS_BIN)
 def binary_roundtrip(shape: int, k0: int, k1: int, i0: int, i1: int, s0: int, b0: int, sel: int, header: bool) -> bool:
@@ -237,7 +237,8 @@ def binary_roundtrip(shape: int, k0: int, k1: int, i0: int, i1: int, s0: int, b0
     sv, bv = STRS[sel % 4], BINS[sel % 3]        # one selector drives all catalogue-valued leaves
     l0 = leaf(k0, i0, sv, bv, sel)
     l1 = leaf(k1, i1, sv + "z", bv + b"\x00", sel + 1)
-    v = [l0, [l0, l1], {"a": l0, "b": [l1]}, [[l0], {"k": l1}]][shape]
+    kk = ["a", "café", "", "k\x00z", "日本"][sel]          # map keys: ASCII, non-ASCII (byte length != character count), empty, NUL
+    v = [l0, [l0, l1], {kk: l0, "b": [l1]}, [[l0], {kk + "k": l1}]][shape]
     _set_zone("UTC" if sel == 2 else ("Europe/Berlin" if sel == 4 else "America/Los_Angeles"))
     try:
         data = llsd.format_binary(v, with_header=header)
